@@ -104,6 +104,20 @@ def gen_c10(tier: str, rng: random.Random) -> Iterator[Dict[str, Any]]:
                 ws_steps = [{"s": "ws", "op": "text", "pid": 9, "len": 2, "frags": [2]}, {"s": "dt", "d": 0.05}]
                 yield ws_session(carrier, 1, ws_steps, echo_app(1, sends), "ws/c10/%s/app-sends/%d/%s" % (carrier, qi, deflate),
                                  cfg={"websocket_max_message_size": 70000}, deflate=deflate)
+    # an echo session served after other WebSocket connections of the same worker process, with and without
+    # permessage-deflate on either (what one connection negotiated is no business of the next)
+    def echo(deflate: bool, pid: int) -> Dict[str, Any]:
+        ws_steps = [{"s": "ws", "op": "text", "pid": pid, "len": 8, "frags": [8], "compress": deflate},
+                    {"s": "ws", "op": "bytes", "pid": pid + 1, "len": 5, "frags": [5], "compress": deflate}, {"s": "dt", "d": 0.05}]
+        sends = [{"type": "websocket.send", "pat": [52, 0, 9], "text": True}, {"type": "websocket.send", "pat": [53, 0, 6]}]
+        return ws_session("h1", 1, ws_steps, echo_app(2, sends), "ws/c10/h1/after-other-connections/%s" % deflate,
+                          cfg={"websocket_max_message_size": 70000}, deflate=deflate)
+    for first in (True, False):
+        for second in (True, False):
+            sc = echo(second, 12)
+            sc["fam"] = "ws/c10/h1/after-other-connections/%s-then-%s" % (first, second)
+            sc["earlier_connections"] = [echo(first, 12)]
+            yield sc
     # large messages around a realistic limit, server->client large sends
     cfg2 = {"websocket_max_message_size": 70000}
     for carrier in ("h1", "h2"):
